@@ -16,14 +16,15 @@ RULE = ('fixed corpus (one-shot, persistent, interval 0, equal intervals, dateti
         '>= 2 timers alive at the same time with different expiries, or a reset/unregister of a live timer; distinct = hash of the scenario')
 ASSUMPTIONS = [
     'time.time and threading.Event doubles are picked up by the repository (asserted per worker, else inconclusive)',
-    'virtual time only advances inside the idle wait of the loop thread (handlers take zero virtual time)',
+    'virtual time advances inside the idle wait of the loop thread, in `busy` handlers, and - in running-clock scenarios - by a fixed cost with every '
+    'reading of the clock; in those scenarios NO_OVERSLEEP and PERSISTENT_SPACING allow 64 readings of slack (the loop cannot act at the instant it reads)',
     'harness actions are executed from a generate_events handler of priority 100, i.e. at the start of a loop iteration',
     'EPS = 1e-6 s tolerance on float arithmetic of expiries',
 ]
 REQUIRED = ['one_shot_fired', 'persistent_fired_3plus', 'interval_zero', 'equal_expiries', 'datetime_deadline', 'reset_live_timer',
             'unregister_live_timer', 'unregister_persistent_after_firing', 'idle_wait_bounded_by_timer', 'two_timers_alive', 'sleep_task_present',
             'unbounded_idle_without_timers', 'double_event_instances', 'virtual_time_calls', 'source_fire_seen',
-            'datetime_deadline_in_non_utc_zone', 'handler_consumed_time']
+            'datetime_deadline_in_non_utc_zone', 'handler_consumed_time', 'clock_advances_between_readings']
 REQUIRED_OBLIGATIONS = ['NOT_EARLY', 'ONE_SHOT_ONCE', 'ONE_SHOT_DETACHED', 'PERSISTENT_SPACING', 'NO_FIRE_AFTER_UNREGISTER', 'RESET_RESTARTS',
                         'NO_OVERSLEEP', 'PROMPT']
 WORKER_TIMEOUT = {'quick': 300, 'thorough': 1500}
@@ -70,11 +71,17 @@ def _run_case(case, clock):
     from circuits.core.manager import sleep
 
     clock.reset(T0)
+    clock.read_cost = float(case.get('read_cost') or 0.0)
+    # with a running clock the loop cannot know how much time passes between reading the clock and acting on it: what is computed
+    # from one reading may be off by the readings of one loop iteration (bounded by 64 here, far below the smallest interval used)
+    slack = 64 * clock.read_cost
     log = []            # ('FIRE', now, tid) | ('ACT', now, action) | ('ITER', now)
     timers = {}         # tid -> dict(obj, persist, interval, expiry (ghost), alive, unreg_at, fired[])
     problems = []
     counts = dict.fromkeys(REQUIRED_OBLIGATIONS, 0)
     marks = set()
+    if clock.read_cost:
+        marks.add('clock_advances_between_readings')
     state = {'ge': None, 'iters': 0, 'due_prev': [], 'stopped': False, 'unbounded_with_live': 0}
     actions = sorted(case['actions'], key=lambda a: a[0])
     pending = list(actions)
@@ -193,8 +200,8 @@ def _run_case(case, clock):
         counts['NO_OVERSLEEP'] += 1
         if live:
             marks.add('idle_wait_bounded_by_timer')
-            if now + dur > min(live) + EPS:
-                problems.append(('NO_OVERSLEEP', {'wait_started_at': now - T0, 'duration': dur, 'earliest_live_expiry': min(live) - T0}))
+            if now + dur > min(live) + EPS + slack:
+                problems.append(('NO_OVERSLEEP', {'wait_started_at': now - T0, 'duration': dur, 'earliest_live_expiry': min(live) - T0, 'slack': slack}))
 
     def on_unbounded():
         live = [t for t in timers.values() if t['alive']]
@@ -270,7 +277,7 @@ def _run_case(case, clock):
                 marks.add('persistent_fired_3plus')
             for a, b in zip(fired, fired[1:]):
                 counts['PERSISTENT_SPACING'] += 1
-                if b - a + EPS < t['interval']:
+                if b - a + EPS + slack < t['interval']:
                     problems.append(('PERSISTENT_SPACING', {'timer': tid, 'consecutive_firings': [a - T0, b - T0], 'interval': t['interval']}))
         else:
             counts['ONE_SHOT_ONCE'] += 1
@@ -313,6 +320,15 @@ def corpus():
                                                            [1.6, 'fire'], [2.0, N, 3, 0.25, False], [3.5, U, 1]]})
     cs.append({'name': 'late-loop', 'end': 16.0, 'actions': [[0, N, 1, 1.0, True], [0, N, 2, 0.25, True], [2.5, 'busy', 1.6], [5.0, 'busy', 3.25],
                                                             [0, N, 3, 2.5, False], [9.0, 'busy', 0.3], [9.0, N, 4, 0.1, False], [12.0, U, 2]]})
+    # a running clock (every reading costs virtual time) and ordinary events that wake the loop a hair before an expiry, at offsets
+    # scanned in steps of half a reading: some iteration reads the clock on both sides of the expiry
+    for dlt in (1e-4, 5e-4):
+        for m in range(11):
+            acts = []
+            for k in range(1, 9):
+                acts.append([0, N, k, 0.5 * k, k % 2 == 0 and k < 5])
+                acts.append([round(0.5 * k - (8 * m + k) * dlt / 2, 7), 'fire'])
+            cs.append({'name': 'running-clock-%g-%d' % (dlt, m), 'read_cost': dlt, 'end': 6.0, 'actions': acts})
     cs.append({'name': 'idle-gap', 'end': 9.0, 'actions': [[0, N, 1, 0.1, False], [4.0, N, 2, 0.25, False], [6.0, 'fire'], [7.0, N, 3, 1, False]]})
     return cs
 
@@ -347,6 +363,14 @@ def gen_case(rng):
         if a[1] == 'sleeper' and len(a) == 2:
             a.append(round(rng.uniform(0.05, 1.5), 2))
     case = {'end': end, 'actions': acts}
+    if rng.random() < 0.3:
+        # a running clock, and events that wake the loop within a few readings of an expiry
+        dlt = rng.choice([1e-4, 5e-4, 2e-3])
+        case['read_cost'] = dlt
+        for a in list(acts):
+            if a[1] == 'new' and not isinstance(a[3], list) and a[3] and rng.random() < 0.7:
+                for n in range(1, rng.randint(1, 4) + 1):
+                    acts.append([round(a[0] + n * a[3] - rng.randint(0, 60) * dlt / 2, 7), 'fire'])
     if any(isinstance(a[3], list) for a in acts if a[1] == 'new') and rng.random() < 0.6:
         case['tz'] = rng.choice(['EST5', 'CET-1', 'IST-5:30', 'NZST-12'])
     return case
